@@ -74,6 +74,9 @@ def _run_variant(args) -> dict:
         new = sorted(fails - known)
         if expect == "SILENT":
             return {"label": label, "status": "detected" if not new else "FALSE-ALARM", "reports": [f"{r} {c}" for r, c in new][:4]}
+        if expect == "OPTIONAL":
+            return {"label": label, "status": "detected" if new else "skipped", "why": "" if new else "documented miss",
+                    "reports": [f"{r} {c}" for r, c in new][:4]}
         if expect is None:
             ok = bool(new)
         else:
@@ -95,6 +98,10 @@ def variants_for(prop: str, root: Path) -> List[tuple]:
                 if mp.exists() and json.loads(mp.read_text()).get("retired"):
                     # neutralised by a later fix: now a behaviour-preserving change that must NOT be reported
                     out.append((prop, f"seeded/{d.name} (retired: must stay silent)", str(root), (d / "patch.diff").read_text(), False, "SILENT"))
+                    continue
+                if mp.exists() and json.loads(mp.read_text()).get("undetected_reason"):
+                    # a mutation no clause of this property covers (documented in DESIGN.md): reported, not required
+                    out.append((prop, f"seeded/{d.name} (documented miss)", str(root), (d / "patch.diff").read_text(), False, "OPTIONAL"))
                     continue
                 out.append((prop, f"seeded/{d.name}", str(root), (d / "patch.diff").read_text(), False, None))
     # behaviour-preserving changes (refactorings, equivalent re-spellings, benign extensions) written by independent
